@@ -8,6 +8,8 @@ def instances(tier):
     out = []
     for n0 in (0, 1, 2, 3):
         out.append({'entry': 'h_map_hist', 'params': [2 if (q or n0 == 3) else 3, n0, 5, 0, 0], 'bound': 'Map<int,int>: %d symbolic initial entries then symbolic ops, keys 0..5, values any int' % n0})
+    out.append({'entry': 'h_map_hist', 'params': [1, 2, 4, 9, 0], 'bound': 'Map<int,int>: keys in {-2e9,-1e9,0,1e9,2e9} (key differences overflow int), 2 symbolic entries + 1 op'})
+    out.append({'entry': 'h_map_hist', 'params': [1, 3, 4, 9, 0], 'bound': 'Map<int,int>: wide keys, 3 symbolic entries + 1 op'})
     if not q:
         out.append({'entry': 'h_map_hist', 'params': [1, 6, 8, 0, 1], 'bound': 'Map<int,int>: 6 initial entries (keys 0..8) then 1 op'})
     for kind, what in ((1, 'HashMap(2)'), (2, 'HashMap(4)'), (3, 'default 256-bucket table, all keys in one bucket')):
